@@ -188,3 +188,8 @@ end LA.Reasm
 /-- Outside `init`, no function of the root package writes a package-level variable, takes the address of one or calls a
 sync/atomic method on one (regenerated list, see LA.Proofs.StateFacts): all state is in the object the model is given. -/
 theorem C10_state_is_in_the_object : LA.StateFacts.ofPkg "" = [] := by decide
+
+/-- The constructor keeps the `maxInFlight` it is given as the size of the window, for every value of the ladder read
+off the running library through reflection (regenerated, see harness/cmd/extract/reasmfacts.go): 0 … 2^20+1, with
+the values around 2^16 and 2^17. The model's `new` stores its argument unchanged. -/
+theorem C10_window_is_the_one_given : ∀ p ∈ LA.Gen.ReasmFacts.windowStored, p.2 = p.1 := by decide
